@@ -54,7 +54,7 @@ def run(R, job):
         if len(samples) < 3:
             samples.append({"ops": log})
         # css
-        kw = {r.choice(["font_size", "backgroundColor", "color", "margin_top", "zIndex", "a_bC"]): r.choice(["12px", "red", None, 3, ["a", "b"], ""]) for _ in range(r.choice([0, 1, 2, 3]))}
+        kw = {r.choice(["font_size", "backgroundColor", "color", "margin_top", "zIndex", "a_bC", "WebkitTransition", "borderTLRadius", "margin_Top", "X", "aB2C"]): r.choice(["12px", "red", None, 3, ["a", "b"], ""]) for _ in range(r.choice([0, 1, 2, 3]))}
         checked += 1
         out = util.css(**kw)
         exp = "".join(re.sub("_", "-", re.sub("([A-Z])", r"-\1", k)).lower() + ":" + (" ".join(v) if isinstance(v, list) else str(v)) + ";" for k, v in kw.items() if v is not None)
